@@ -5,6 +5,7 @@
 
 from __future__ import annotations
 
+import contextlib
 import logging
 from collections.abc import Callable, Iterator
 from io import IOBase
@@ -415,7 +416,26 @@ class _RpcProxy:
                     object.__setattr__(transport, "_stream_opened", True)
                 header = None
                 if info.header_type is not None:
-                    header = _read_stream_header(transport.reader, info.header_type, ipc_validation, on_log, ext_cfg)
+                    try:
+                        header = _read_stream_header(
+                            transport.reader, info.header_type, ipc_validation, on_log, ext_cfg
+                        )
+                    except RpcError:
+                        raise
+                    except Exception:
+                        # Not a server error (typically on_log raised): the stream is
+                        # open on the server but the caller will never get a session
+                        # to close.  End it here so the connection stays usable.
+                        with contextlib.suppress(Exception):
+                            StreamSession(
+                                transport.writer,
+                                transport.reader,
+                                None,
+                                external_config=ext_cfg,
+                                ipc_validation=ipc_validation,
+                                shm=shm,
+                            ).close()
+                        raise
                 session = StreamSession(
                     transport.writer,
                     transport.reader,
